@@ -2,6 +2,8 @@ package props
 
 import (
 	"fmt"
+	"reflect"
+	"unsafe"
 
 	"github.com/free5gc/nas/security"
 
@@ -36,8 +38,9 @@ type c11Step struct {
 }
 
 type c11Seq struct {
-	State uint32    `json:"state"`
-	Ops   []c11Step `json:"ops"`
+	State   uint32    `json:"state"`
+	Ops     []c11Step `json:"ops"`
+	NoReads bool      `json:"no_reads_between_ops,omitempty"` // observe only after the last operation (Get is a read that may normalise hidden bits)
 }
 
 func c11Build(s uint32) security.Count {
@@ -91,6 +94,51 @@ func c11Apply(cnt *security.Count, ref *uint32, op int, o uint16, q uint8) strin
 	return ""
 }
 
+// c11Mutate applies one op to implementation and model without observing anything.
+func c11Mutate(cnt *security.Count, ref *uint32, op int, o uint16, q uint8) {
+	switch op {
+	case c11AddOne:
+		cnt.AddOne()
+		*ref = (*ref + 1) & 0xFFFFFF
+	case c11SetSQN:
+		cnt.SetSQN(q)
+		*ref = (*ref &^ 0xFF) | uint32(q)
+	case c11SetOverflow:
+		cnt.SetOverflow(o)
+		*ref = (*ref & 0xFF) | uint32(o)<<8
+	case c11Set:
+		cnt.Set(o, q)
+		*ref = uint32(o)<<8 | uint32(q)
+	}
+}
+
+// c11Observe compares the three observations with the model, the non-normalising ones first.
+func c11Observe(cnt *security.Count, ref uint32) string {
+	if cnt.SQN() != uint8(ref) {
+		return "sqn"
+	}
+	if cnt.Overflow() != uint16(ref>>8) {
+		return "overflow"
+	}
+	g := cnt.Get()
+	if g != ref {
+		return "get"
+	}
+	if cnt.SQN() != uint8(ref) || cnt.Overflow() != uint16(ref>>8) || cnt.Get() != ref {
+		return "read-changes-value"
+	}
+	return ""
+}
+
+// raw access to the single backing word (only used as a state key for the hidden-state search)
+func c11RawOK() bool {
+	t := reflect.TypeOf(security.Count{})
+	return t.NumField() == 1 && t.Field(0).Type.Kind() == reflect.Uint32 && t.Size() == 4
+}
+
+func c11Raw(cnt *security.Count) uint32       { return *(*uint32)(unsafe.Pointer(cnt)) }
+func c11SetRaw(cnt *security.Count, v uint32) { *(*uint32)(unsafe.Pointer(cnt)) = v }
+
 func c11OpIndex(name string) int {
 	for i, n := range c11OpNames {
 		if n == name {
@@ -117,6 +165,16 @@ func c11StepCase(c *core.Ctx, in c11Step) {
 func c11SeqCase(c *core.Ctx, in c11Seq) {
 	cnt := c11Build(in.State)
 	ref := in.State & 0xFFFFFF
+	if in.NoReads {
+		for _, st := range in.Ops {
+			c11Mutate(&cnt, &ref, c11OpIndex(st.Op), st.O, st.Q)
+		}
+		if bad := c11Observe(&cnt, ref); bad != "" {
+			last := in.Ops[len(in.Ops)-1].Op
+			c.Fail("seq-noreads|"+last+"|"+bad, fmt.Sprintf("state %#06x, operations %v without reads in between: implementation SQN=%#x Overflow=%#x Get=%#x, model %#06x", in.State, in.Ops, cnt.SQN(), cnt.Overflow(), cnt.Get(), ref))
+		}
+		return
+	}
 	for i, st := range in.Ops {
 		if bad := c11Apply(&cnt, &ref, c11OpIndex(st.Op), st.O, st.Q); bad != "" {
 			c.Fail("seq|"+st.Op+"|"+bad, fmt.Sprintf("state %#06x, step %d of %v: implementation Get=%#x, model %#06x", in.State, i, in.Ops, cnt.Get(), ref))
@@ -203,6 +261,108 @@ func c11Run(c *core.Ctx) {
 		}
 		c.Tick()
 	}
+	// operation pairs without a read in between, from every state: Get normalises the backing word, so a fault that
+	// lives in bits the reads do not show is only visible when no read separates the operations
+	type pop struct {
+		op int
+		o  uint16
+		q  uint8
+	}
+	pairAlpha := func(s uint32) []pop {
+		cur := uint16(s >> 8)
+		return []pop{{c11AddOne, 0, 0}, {c11SetSQN, 0, 0xFF}, {c11SetSQN, 0, 0}, {c11SetOverflow, 0, 0}, {c11SetOverflow, 0xFFFF, 0},
+			{c11SetOverflow, cur - 1, 0}, {c11SetOverflow, cur + 1, 0}, {c11SetOverflow, ^cur, 0}, {c11Set, cur - 1, uint8(s)}, {c11Set, 0xFFFF, 0xFF}}
+	}
+	rawOK := c11RawOK()
+	dirty := map[uint32]c11Seq{} // raw backing words with bits outside the 24-bit value, with a shortest history reaching them
+	var pairs int64
+	for blk := 0; blk < 256; blk++ {
+		if !c.Mine(blk) {
+			continue
+		}
+		if !c.Begin("pair-block", "Count", map[string]int{"overflow_high_byte": blk}) {
+			continue
+		}
+		stride := 1
+		if !c.Thorough() {
+			stride = 3 // quick: every third state (all residues of the low bits are still hit within a block)
+		}
+		for lo := 0; lo < 1<<16; lo += stride {
+			s := uint32(blk)<<16 | uint32(lo)
+			base := c11Build(s)
+			al := pairAlpha(s)
+			for _, a := range al {
+				c1 := base
+				r1 := s
+				c11Mutate(&c1, &r1, a.op, a.o, a.q)
+				if rawOK {
+					if raw := c11Raw(&c1); raw>>24 != 0 {
+						if _, ok := dirty[raw]; !ok && len(dirty) < 1<<20 {
+							dirty[raw] = c11Seq{State: s, Ops: []c11Step{{Op: c11OpNames[a.op], O: a.o, Q: a.q}}, NoReads: true}
+						}
+					}
+				}
+				for _, b := range al {
+					c2 := c1
+					r2 := r1
+					c11Mutate(&c2, &r2, b.op, b.o, b.q)
+					pairs++
+					transitions++
+					if c11Observe(&c2, r2) != "" {
+						in := c11Seq{State: s, Ops: []c11Step{{Op: c11OpNames[a.op], O: a.o, Q: a.q}, {Op: c11OpNames[b.op], O: b.o, Q: b.q}}, NoReads: true}
+						c.Begin("seq", "Count", in)
+						c11SeqCase(c, in)
+					}
+				}
+			}
+		}
+		c.Tick()
+	}
+	// hidden-state search: every backing word with stray high bits that the operations can produce is a state of its
+	// own; BFS from those, every operation, observations against the model carried along the history
+	var hidden int64
+	if rawOK {
+		queue := make([]uint32, 0, len(dirty))
+		for raw := range dirty {
+			queue = append(queue, raw)
+		}
+		for len(queue) > 0 && hidden < 200000 {
+			raw := queue[0]
+			queue = queue[1:]
+			hist := dirty[raw]
+			hidden++
+			// model value along the recorded history
+			ref := hist.State & 0xFFFFFF
+			tmp := c11Build(hist.State)
+			for _, st := range hist.Ops {
+				c11Mutate(&tmp, &ref, c11OpIndex(st.Op), st.O, st.Q)
+			}
+			for _, a := range pairAlpha(ref) {
+				var cnt security.Count
+				c11SetRaw(&cnt, raw)
+				r := ref
+				c11Mutate(&cnt, &r, a.op, a.o, a.q)
+				transitions++
+				nraw := c11Raw(&cnt)
+				nh := c11Seq{State: hist.State, Ops: append(append([]c11Step{}, hist.Ops...), c11Step{Op: c11OpNames[a.op], O: a.o, Q: a.q}), NoReads: true}
+				if c11Observe(&cnt, r) != "" {
+					c.Begin("seq", "Count", nh)
+					c11SeqCase(c, nh)
+					continue
+				}
+				if nraw>>24 != 0 {
+					if _, ok := dirty[nraw]; !ok && len(dirty) < 1<<20 && len(nh.Ops) < 6 {
+						dirty[nraw] = nh
+						queue = append(queue, nraw)
+					}
+				}
+			}
+		}
+	} else if c.Shard == 0 {
+		c.Note("security.Count is no longer a single uint32: the hidden-state search is skipped (operation pairs without reads still run)")
+	}
+	c.Add("operation_pairs_without_reads", pairs)
+	c.Add("hidden_backing_states_explored", hidden)
 	// all 65 536 overflow arguments from a small state alphabet
 	if c.Shard == 0 {
 		for _, s := range []uint32{0, 1, 0xFF, 0x100, 0xFFFF00, 0xFFFFFF, 0xA5A5A5} {
@@ -278,14 +438,14 @@ func init() {
 		ID: "C11", Level: "model_checking", Run: c11Run,
 		Shards: func(string) int { return 16 },
 		Rule: func(tier string) string {
-			return "explicit-state search on the real security.Count: every one of the 2^24 states is built through Set on a fresh object; from each state every operation of the alphabet (reads twice interleaved, AddOne, AddOne·AddOne, SetSQN, SetOverflow, Set) is executed on the implementation and on a 24-bit integer model and Get/SQN/Overflow are compared; plus every length-3 sequence over a 12-operation alphabet from seed states. A state is non-trivial/distinct by its 24-bit value."
+			return "explicit-state search on the real security.Count: every one of the 2^24 states is built through Set on a fresh object; from each state every operation of the alphabet (reads twice interleaved, AddOne, AddOne·AddOne, SetSQN, SetOverflow, Set) is executed on the implementation and on a 24-bit integer model and Get/SQN/Overflow are compared; plus, from every state (every third in quick), every ordered pair over a 10-operation alphabet executed without a read in between (Get normalises the backing word), a BFS over every backing word with stray high bits that operations can produce (hidden states), and every length-3 sequence over a 12-operation alphabet from seed states. A state is non-trivial/distinct by its 24-bit value."
 		},
 		Bounds: func(tier string) map[string]any {
 			q, o := c11Alphabets(tier == "thorough")
 			return map[string]any{"states": 1 << 24, "SetSQN_args": len(q), "SetOverflow_args": len(o) + 3, "history_depth": "unbounded by induction over one-step agreement from every state; depth 3 enumerated explicitly from seeds"}
 		},
 		Assumptions: []string{
-			"Get/SQN/Overflow expose the complete abstract state, so one-step agreement from every reachable state extends to all histories by induction",
+			"the abstract state is the 24-bit value; the backing word may carry further bits, which is why operation pairs without intermediate reads and the hidden-state BFS (backing word read through unsafe, used as a state key only) are explored in addition to the one-step check",
 			"states are constructed with Set(overflow,sqn) on a zero-valued Count (the only public constructor); a struct copy of Count is a faithful clone",
 		},
 		Finish: func(m *core.Merged, cov map[string]any) {
